@@ -161,20 +161,22 @@ theorem delete_topic_effects (s : St) (t : String) (T : Topic) (hT : getTopic s 
     getTopic (step s (.deleteTopic t)).1 t = none ∧
     (∀ c, getChan (step s (.deleteTopic t)).1 t c = none) ∧
     (∀ C ∈ T.chans, ∀ k ∈ C.clients, k.id ∈ (step s (.deleteTopic t)).1.closed) ∧
-    (∀ b ∈ (step s (.deleteTopic t)).1.files, b.1 ≠ t) := by
+    (∀ b ∈ T.filesOf, b ∉ (step s (.deleteTopic t)).1.files) := by
   simp only [step, hT]
   have h1 : getTopic (St.mk s.memCap (s.topics.filter (fun X => X.name != t))
                 (s.closed ++ (T.chans.map (fun C => C.clients.map (·.id))).flatten)
-                (s.files.filter (fun b => b.1 != t)) s.autoDeleted s.orphans) t = none :=
+                (s.files.filter (fun b => !(T.filesOf.contains b))) s.autoDeleted s.orphans) t = none :=
     getTopic_filter_ne s t _ rfl
   refine ⟨h1, ?_, ?_, ?_⟩
   · intro c; unfold getChan; rw [h1]
   · intro C hC k hk
     simp only [List.mem_append, List.mem_flatten, List.mem_map]
     exact Or.inr ⟨_, ⟨C, hC, rfl⟩, List.mem_map.mpr ⟨k, hk, rfl⟩⟩
-  · intro b hb
-    simp at hb
-    exact hb.2
+  · intro b hb hmem
+    simp only [List.mem_filter] at hmem
+    have : T.filesOf.contains b = true := by simpa using hb
+    simp at hmem
+    exact hmem.2 hb
 
 /-- `Channel.Empty`: exactly what the channel held at that moment is discarded; its consumers stay
 subscribed with in-flight count 0; every other channel is untouched; a later publish is kept -/
